@@ -4,6 +4,7 @@ import (
 	"fmt"
 	"math"
 	"path/filepath"
+	"sort"
 	"strings"
 	"time"
 
@@ -34,6 +35,14 @@ func (c c01Unexported) Var(xs ...int) int          { return len(xs) }
 func (c c01Unexported) NilValue() *pongo2.Value    { return nil }
 func (c c01Unexported) ValArg(v *pongo2.Value) int { return v.Len() }
 
+type c01Holder struct {
+	S *c01Stringer
+	T *time.Time
+	U *c01Unexported
+	I fmt.Stringer
+	E error
+}
+
 type c01Stringer struct{ v string }
 
 func (s c01Stringer) String() string { return s.v }
@@ -53,6 +62,8 @@ func c01GoContext(i int) pongo2.Context {
 		"up": &u, "pm": map[*c01Unexported]bool{&u: true}, "sk": c01Key{1, "a"}, "sm": map[c01Key]int{{1, "a"}: 1}, "fm": map[float64]string{2.5: "x"},
 		"bm": map[bool]int{true: 1}, "im": map[int]string{3: "three"}, "ak": [2]int{1, 2}, "am": map[[2]int]int{{1, 2}: 3}, "ifm": map[any]any{"a": 1, 2: "b", 2.5: "c"},
 		"um": map[uint8]string{200: "x"}, "i8m": map[int8]string{-128: "y"}, "stm": map[string]any{"x&y": 1}, "nilm": map[string]int(nil),
+		// typed nil pointers, also to types that have methods
+		"npst": (*c01Stringer)(nil), "nptm": (*time.Time)(nil), "npun": (*c01Unexported)(nil), "npmap": (*map[string]int)(nil), "nperr": error(nil), "holder": c01Holder{},
 		"uurl": "http://пример-длинного-доменного-имени-для-проверки.рф/страница", "wurl": "www." + strings.Repeat("例", 40) + ".de x@y.de", "emo": "😀 héllo wörld 😀😀 naïve",
 	}
 	switch i % 8 {
@@ -109,6 +120,8 @@ var c01Exprs = []string{"-s1", "n1 / z", "n1 % z", "f1 / 0.0", "n1 ^ n2", "big ^
 	"n1 == st", "lst == lst", "f1 < lst", "nil1 + nil1", "st + 1", "9223372036854775807 + 1", "99999999999999999999", "1.99999999999999999999", "n2 / -1", "n2 % -1",
 	"up in pm", "st in pm", "nil1 in pm", "sk in sm", "st in sm", "f1 in fm", "n1 in fm", "b1 in bm", "n1 in bm", "n1 in im", "s1 in im", "f1 in im", "ak in am", "lst in am", "nums in am",
 	"up in lst", "sk in sk", "n1 in ifm", "lst in ifm", "m in ifm", "st in ifm", "nil1 in ifm", "n1 in um", "n2 in i8m", "s1 in stm", "s1 in nilm", "up in up", "pm in pm", "am in am",
+	"npst", "nptm", "npun", "npmap", "nperr", "holder.S", "holder.T", "holder.U", "holder.I", "holder.E", "npst|upper", "nptm|date:\"2006\"", "npun.Name", "npun.Hello(1)", "npst|length", "npst == npst",
+	"npst in lst", "holder.T|default:\"d\"", "npst|default_if_none:\"n\"", "npst|safe", "npst|escape", "npst + 1", "not npst", "nptm|time:\"15\"", "nptm < nptm", "npst|stringformat:\"%v\"",
 	"not (lst in ifm)", "up == up", "pm == pm", "sk == sk", "am == am", "ifm == ifm", "up in nil1", "nil1 in nil1"}
 
 func runC01(r *run) {
@@ -193,6 +206,48 @@ func runC01(r *run) {
 					src := "{{ " + v + "|" + f + ":" + n + " }}"
 					cases = append(cases, caseT{"gototal", append(w.args(src, nil), xf, xt, "0")})
 					cases = append(cases, caseT{"gototal", append(w.args(src, nil), xf, xt, "1")})
+				}
+			}
+		}
+		// (f) every tag: its documented forms cut off after every byte (a source may end anywhere),
+		// and its arguments dropped, doubled or replaced token by token
+		fullUses := []string{}
+		for _, u := range c03TagUse {
+			fullUses = append(fullUses, strings.ReplaceAll(u, "FILE", "inc.tpl"))
+		}
+		fullUses = append(fullUses, "{% if a %}x{% elif b %}y{% else %}z{% endif %}", "{% for k, v in mm sorted %}{{ k }}{% empty %}e{% endfor %}", "{% with a=1 b=2 %}x{% endwith %}",
+			"{% with s1 as w %}x{% endwith %}", "{% include \"inc.tpl\" with a=1 b=2 only %}", "{% include s1 if_exists %}", "{% import \"lib.tpl\" mm as m2, mm %}", "{% macro zm(a, b=1) export %}x{% endmacro %}",
+			"{% cycle \"a\" \"b\" as cc silent %}", "{% ifchanged a b %}x{% else %}y{% endifchanged %}", "{% widthratio 1 2 3 as wr %}", "{% lorem 2 p random %}", "{% block zz %}x{% endblock zz %}",
+			"{% filter lower|cut:\"a\" %}x{% endfilter %}", "{% ssi \"inc.tpl\" parsed %}", "{% autoescape off %}x{% endautoescape %}", "{% set a = 1 + 2 %}", "{% comment %}x{% endcomment %}y",
+			"{{ a|default:[1, b]|join:\",\" }}", "{{ a.b[0](1, \"x\").c }}", "{% verbatim %}{{ x }}{% endverbatim %}", "a{# c #}b")
+		sort.Strings(fullUses)
+		for _, u := range fullUses {
+			for cut := 1; cut < len(u); cut++ {
+				cases = append(cases, caseT{"render", append(w.args(u[:cut], ctx0), xf, xt)})
+			}
+			// token-level damage inside the first tag
+			end := strings.Index(u, "%}")
+			if strings.HasPrefix(u, "{%") && end > 0 {
+				toks := strings.Fields(u[2:end])
+				rest := u[end:]
+				for i := range toks {
+					for _, repl := range []string{"", toks[i] + " " + toks[i], "1", "\"s\"", "=", ",", "x.y", "as", "%"} {
+						nt := append(append(append([]string{}, toks[:i]...), repl), toks[i+1:]...)
+						cases = append(cases, caseT{"render", append(w.args("{% "+strings.Join(nt, " ")+" "+rest, ctx0), xf, xt)})
+					}
+				}
+				cases = append(cases, caseT{"render", append(w.args("{% "+strings.Join(toks, " ")+" extra "+rest, ctx0), xf, xt)})
+				cases = append(cases, caseT{"render", append(w.args("{% "+strings.Join(toks, " ")+" 1 \"s\" , "+rest, ctx0), xf, xt)})
+			}
+		}
+		// (g) markup and links for the filters that read HTML or look for URLs
+		for _, f := range []string{"truncatechars_html", "truncatewords_html", "urlize", "urlizetrunc", "striptags", "removetags:\"b,i\"", "linebreaks", "escapejs", "wordwrap", "title", "phone2numeric"} {
+			for _, v := range []string{"<b>bold <i>it</i></b> tail", "<a href=\"x y\" title='t'>l i n k</a>", "<p", "<", "a <", "</", "</b>x", "<b><b><b>deep</b>", "<br/>a<br />b", "a < b > c", "<é>ü</é>", "<!-- c -->x", "<b\nclass=x>y</b>",
+				"see www.example.com and http://a.b/c?d=e&f=g, mail x@y.de.", "http://", "www.", "a@b", "http://x.y/" + strings.Repeat("z", 80), "https://пример.рф/путь www.例.jp", "x@y.de,www.a.bc;http://d.ef", " www.a.bc ", "&amp; &lt;b&gt;", "\xff<b>\xfe</b>"} {
+				for _, n := range []string{"", ":0", ":1", ":3", ":7", ":15", ":40", ":true", ":false", ":\"x\""} {
+					if !strings.Contains(f, ":") || n == "" {
+						cases = append(cases, caseT{"render", append(w.args("{{ \""+strings.ReplaceAll(strings.ReplaceAll(v, "\\", "\\\\"), "\"", "\\\"")+"\"|"+f+n+" }}", ctx0), xf, xt)})
+					}
 				}
 			}
 		}
